@@ -658,6 +658,22 @@ func ClauseOptions(yield func(name string, s S)) {
 	s.OffsetRows = true
 	s.Fetch = &Fetch{Type: "FIRST", N: 10}
 	yield("offset-rows-fetch", s.Build())
+	// counts written with leading zeros (decimal all the same), values whose digits would also be octal and values that would not
+	for _, pad := range []int{1, 2} {
+		for _, v := range []int{8, 10, 25, 100} {
+			s = base()
+			s.ZeroPad = pad
+			s.Limit = ip(v)
+			s.Offset = ip(v + 9)
+			yield("limit-offset-zero-padded", s.Build())
+			s = base()
+			s.ZeroPad = pad
+			s.Offset = ip(v)
+			s.OffsetRows = true
+			s.Fetch = &Fetch{Type: "NEXT", N: int64(v) + 1}
+			yield("offset-fetch-zero-padded", s.Build())
+		}
+	}
 	// for
 	for _, l := range []string{"UPDATE", "SHARE", "NO KEY UPDATE", "KEY SHARE"} {
 		for _, of := range [][]string{nil, {"t1"}, {"t1", "t2"}} {
